@@ -314,7 +314,8 @@ Proof. exact real_truncation_nonvacuous. Qed.
 (* ======================================================================== *)
 (* END TO END: damage and the CONCRETE scanner (StreamFrame.v, see C11.v)     *)
 (* ======================================================================== *)
-From PBK Require Import StreamFrame StreamFrameProofs StreamFrameDamage StreamFrameTemplate.
+From PBK Require Import StreamFrame StreamFrameProofs StreamFrameDamage StreamFrameOverrun
+  StreamFrameDamageStream StreamFrameTemplate.
 
 (* the section loop of a full decode splits where section 5 begins: all that
    comes before is a function of the bits e consumed by sections 0..4 alone —
@@ -333,7 +334,7 @@ Theorem C12_decode_sections_upto5 :
 Proof. exact decode_sections_upto5. Qed.
 Print Assumptions C12_decode_sections_upto5.
 
-(* THE damage theorem, message level: an encoded message (hypotheses of
+(* DAMAGE 1, message level: an encoded message (hypotheses of
    C04_frame_roundtrip) whose last four octets are replaced by any four octets
    other than '7777', followed by ANY bytes: the full decode (as the scanner calls
    it: no signature search, value expectations on) fails with the library's own
@@ -356,22 +357,56 @@ Theorem C12_ELib_is_library_error : is_lib_err ELib = true.
 Proof. reflexivity. Qed.
 Print Assumptions C12_ELib_is_library_error.
 
-(* what the scanner theorems ask of a damaged message, all of it, with the real
-   template decoders: it still starts with 'BUFR', has the same length, its full
-   decode fails with the library error whatever follows [full_fails], its
-   metadata-only decode succeeds whatever follows with the declared length intact
-   [info_ok].  replace_stop b x4 = b[:-4] + x4; bad_stopb x4 = four octets, not '7777' *)
-Theorem C12_e2e_damaged_stop_hyps_template : forall T_of n_of c_of view ign json m x4,
-  encode_message ign json = Ok m -> msg_wfb (dd_template T_of n_of c_of) m = true -> bad_stopb x4 = true ->
-  let d := replace_stop (m_bytes m) x4 in
-  starts_sig d /\ length d = length (m_bytes m) /\ ends_7777b d = false /\
-  full_fails (frame_process (dd_template T_of n_of c_of) view false) d ELib /\
-  info_ok (frame_process (dd_template T_of n_of c_of) view true) d.
-Proof. exact damaged_stop_hyps_template. Qed.
-Print Assumptions C12_e2e_damaged_stop_hyps_template.
+(* DAMAGE 2, message level: a declared section length DECREASED.  For an encoded
+   message the last two sections are 4 and 5 and section 4 carries (declared
+   length sl, reserved bits, data).  dmg_len4 b sl v = b with the three octets
+   at |b| - 4 - sl (the length field of section 4) overwritten by v.  If 8 v bits
+   cannot hold the section's content (32 + |data| bits), the full decode of the
+   damaged message followed by ANY bytes is the library's overrun error
+   (C04 decode_overrun_error) — it neither succeeds nor reads on; if moreover
+   4 <= v <= sl the metadata-only decode still succeeds, with one and the same
+   result whatever follows, and reports the intact total length *)
+Theorem C12_damaged_section4_length :
+  forall (dd : list (pname * pvalue) -> reader -> result (bits * reader)),
+  (forall p r b r', dd p r = Ok (b, r') -> r = b ++ r') ->
+  (forall p r b r' s, dd p r = Ok (b, r') -> dd p (r ++ s) = Ok (b, r' ++ s)) ->
+  (forall p, cuts (dd p)) ->
+  forall ign json m,
+  encode_message ign json = Ok m ->
+  Forall sec_fits (m_sections m) -> Forall desc_fill_ok (m_sections m) -> data_ok dd [] (m_sections m) ->
+  exists pre s4 s5 sl rb data,
+    m_sections m = pre ++ [s4; s5] /\
+    sec_values s4 = [(Nsection_length, PUint sl); (Nreserved_bits, rb); (Ntemplate_data, PData data)] /\
+    (0 <= sl)%Z /\ (Z.to_nat sl + 8 <= length (m_bytes m))%nat /\
+    forall v, (0 <= v < 2 ^ 24)%Z -> (8 * v < 32 + Z.of_nat (length data))%Z ->
+      length (dmg_len4 (m_bytes m) sl v) = length (m_bytes m) /\ starts_sig (dmg_len4 (m_bytes m) sl v) /\
+      (forall t, decode_message dd None false false (dmg_len4 (m_bytes m) sl v ++ t) = Err ELib) /\
+      ((4 <= v <= sl)%Z ->
+         exists mi, (forall t, decode_message dd None true false (dmg_len4 (m_bytes m) sl v ++ t) = Ok mi) /\
+                    prop_get Nlength (m_props mi) = Some (PUint (Z.of_nat (length (m_bytes m))))).
+Proof. exact damaged_section4_length. Qed.
+Print Assumptions C12_damaged_section4_length.
 
-(* isolation, end to end.  A stream of items, each undamaged (as in C11) or with
-   its stop signature overwritten (dmg_okb: a damaged one need not be quiet).
+(* what the scanner theorems ask of a damaged message, all of it, with the real
+   template decoders and executable conditions only.
+     damage = DStop x4 (last four octets := x4) | DLen4 v (length field of section 4 := v)
+     damage_okb m (DStop x4) = x4 is four octets, not '7777'
+     damage_okb m (DLen4 v)  = 4 <= v <= sl, v < 2^24, 8 v < 32 + |data|, where
+                               sec4_info m = Some (sl, |data|) is read off the
+                               second-to-last section of the encoded message
+   The damaged message still starts with 'BUFR' and has the same length; its full
+   decode fails with the library error whatever follows [full_fails]; its
+   metadata-only decode succeeds whatever follows with the declared length intact [info_ok] *)
+Theorem C12_e2e_damaged_hyps_template : forall T_of n_of c_of view ign json m d,
+  encode_message ign json = Ok m -> msg_wfb (dd_template T_of n_of c_of) m = true -> damage_okb m d = true ->
+  starts_sig (damage_bytes m d) /\ length (damage_bytes m d) = length (m_bytes m) /\
+  full_fails (frame_process (dd_template T_of n_of c_of) view false) (damage_bytes m d) ELib /\
+  info_ok (frame_process (dd_template T_of n_of c_of) view true) (damage_bytes m d).
+Proof. exact damaged_hyps_template. Qed.
+Print Assumptions C12_e2e_damaged_hyps_template.
+
+(* isolation, end to end.  A stream of items, each undamaged (as in C11) or
+   damaged in one of the two ways (dmg_okb: a damaged one need not be quiet).
    With continue_on_error the concrete scanner delivers exactly the undamaged
    messages, unchanged and in order, and ends normally — any number of damaged
    messages anywhere, adjacent ones included. *)
@@ -403,32 +438,37 @@ Print Assumptions C12_e2e_continue_skips_damaged_stub.
 
 (* without continue_on_error: the messages before the damaged one are delivered,
    then PyBufrKitError surfaces; nothing is assumed about what follows *)
-Theorem C12_e2e_stops_at_damaged_template : forall T_of n_of c_of view tdp filt sep0 items it x4 rest,
+Theorem C12_e2e_stops_at_damaged_template : forall T_of n_of c_of view tdp filt sep0 items it d rest,
   nosigb sep0 = true -> forallb (item_okb (dd_template T_of n_of c_of) false) items = true ->
-  item_okb (dd_template T_of n_of c_of) true it = true -> bad_stopb x4 = true ->
+  dmg_okb (dd_template T_of n_of c_of) false (it, Some d) = true ->
   frame_generate (dd_template T_of n_of c_of) view tdp filt false false false
-    (sep0 ++ assemble (stream_of items) ++ replace_stop (item_bytes it) x4 ++ rest)
+    (sep0 ++ assemble (stream_of items) ++ dmg_bytes (it, Some d) ++ rest)
   = (map item_bytes items, Some ELib).
 Proof. exact e2e_stops_at_damaged_template. Qed.
 Print Assumptions C12_e2e_stops_at_damaged_template.
 
 (* recorded (not a defect of the model: the implementation behaves so):
-   metadata-only mode never reads section 5, so an overwritten stop signature is
-   NOT detected there — the damaged messages are delivered like the others *)
-Theorem C12_e2e_info_mode_ignores_stop_signature_template : forall T_of n_of c_of view tdp filt coe sep0 items,
+   metadata-only mode reads neither section 5 nor the content of section 4, so
+   neither damage is detected there — the damaged messages are delivered like
+   the others (cut by the intact total length) *)
+Theorem C12_e2e_info_mode_delivers_damaged_template : forall T_of n_of c_of view tdp filt coe sep0 items,
   nosigb sep0 = true -> forallb (dmg_okb (dd_template T_of n_of c_of) true) items = true ->
   frame_generate (dd_template T_of n_of c_of) view tdp filt true coe false (sep0 ++ assemble (dmg_stream items))
   = (map dmg_bytes items, None).
-Proof. exact e2e_info_mode_ignores_stop_signature_template. Qed.
-Print Assumptions C12_e2e_info_mode_ignores_stop_signature_template.
+Proof. exact e2e_info_mode_delivers_damaged_template. Qed.
+Print Assumptions C12_e2e_info_mode_delivers_damaged_template.
 
-(* non-vacuity, computed: five messages, the 2nd (a table-definition message)
-   with '7778' and the 4th with NULs in place of '7777'; the hypotheses hold; the
-   concrete scanner RUN on the stream with continue_on_error returns messages 1,
-   3, 5; without it message 1 and then PyBufrKitError; metadata-only all five *)
+(* non-vacuity, computed: seven messages; #2 (a table-definition message) with
+   '7778' and #4 with NULs in place of '7777'; #5 and #6 with the length of
+   section 4 (16 octets) set to 8 resp. 15; the hypotheses hold; the concrete
+   scanner RUN on the stream with continue_on_error returns messages 1, 3, 7;
+   without it message 1 and then PyBufrKitError; metadata-only all seven *)
 Example C12_e2e_damage_nonvacuous :
   forallb (dmg_okb e2e_dd false) e2e_dmg_items = true /\
-  map undamaged e2e_dmg_items = [true; false; true; false; true] /\
+  map undamaged e2e_dmg_items = [true; false; true; false; false; false; true] /\
+  map (fun it => match item_msg (fst it) with Ok m => sec4_info m | Err _ => None end) e2e_dmg_items =
+    [Some (16%Z, 96%nat); Some (16%Z, 96%nat); Some (16%Z, 96%nat); Some (14%Z, 80%nat); Some (16%Z, 96%nat);
+     Some (16%Z, 96%nat); Some (16%Z, 96%nat)] /\
   outcome_eqb (frame_generate e2e_dd e2e_view e2e_tdp e2e_filt false true false
                  (e2e_sep0 ++ assemble (dmg_stream e2e_dmg_items)))
               (map dmg_bytes (filter undamaged e2e_dmg_items), None) = true /\
